@@ -76,8 +76,9 @@ def to_op(last):
     raise ValueError(k)
 
 
-def replay_one(hist):
-    """Returns None (agrees) or a dict describing the first disagreement."""
+def replay_one(hist, workers=None, clients=None, channels=None, after_step=None, result_hook=None):
+    """Returns {"ok": True, ...} or a dict describing the first disagreement.  after_step(driver,
+    spec_step) is called after every compared quiescent step and may return a disagreement."""
     from . import qsdriver
     plan = {}
 
@@ -89,7 +90,8 @@ def replay_one(hist):
                 return w
         return workers[0]
 
-    d = qsdriver.Driver(workers=qstrace.WORKERS, clients=qstrace.CLIENTS, policy=policy)
+    d = qsdriver.Driver(workers=workers or qstrace.WORKERS, clients=clients or qstrace.CLIENTS, policy=policy,
+                        channels=channels or qstrace.CHANNELS, result_hook=result_hook)
     # cut the behaviour into segments: [ops...] then optionally a complete drain
     i = 0
     n = len(hist)
@@ -122,6 +124,10 @@ def replay_one(hist):
                     if h["last"]["op"] == "pull" and h["last"]["got"] != e.get("got"):
                         return {"step": steps_done, "op": h["last"], "differs": ["pull result"], "real_got": e.get("got")}
                     steps_done += 1
+                if after_step:
+                    r = after_step(d, ops[-1])
+                    if r:
+                        return dict(r, step=steps_done, op=ops[-1]["last"])
             if i >= n:
                 break
             if hist[i]["last"]["op"] == "restart":
@@ -191,6 +197,10 @@ def replay_one(hist):
                 return {"step": steps_done, "op": {"op": "drained"}, "differs": df, "spec": norm_spec_state(hist[j]["st"]),
                         "real": norm_real_state(evs[-1]["post"])}
             steps_done += 1
+            if after_step:
+                r = after_step(d, hist[j])
+                if r:
+                    return dict(r, step=steps_done, op=hist[j]["last"])
             i = j + 1
     finally:
         d.close()
